@@ -18,6 +18,13 @@
 #include <any>
 #include <unistd.h>
 #include <boost/any.hpp>
+#if defined(VCFG_SER)
+#include <boost/archive/text_oarchive.hpp>
+#include <boost/archive/text_iarchive.hpp>
+#include <boost/archive/binary_oarchive.hpp>
+#include <boost/archive/binary_iarchive.hpp>
+#include <boost/serialization/array.hpp>
+#endif
 #include <boost/mpl/vector.hpp>
 #include <boost/fusion/mpl.hpp>
 #include <boost/fusion/include/mpl.hpp>
@@ -198,21 +205,27 @@ template <int N> struct Ac {
         cb("a", "a" + std::to_string(N), e, f, -4, true, true, -1); }
 };
 
-// common part of every state: entry / exit logging.  SID = global state index (name table)
-template <int SID> struct Beh {
-    template <class E, class F> void on_entry(E const& e, F& f) { cb("en", SNAME[SID], e, f, -1, true, true, -1); }
+// serialization opt-in (C16): states / front-ends flagged "ser" in the corpus define do_serialize + serialize
+template <bool SER> struct SerOpt { int data = 0; };
+template <> struct SerOpt<true> {
+    int data = 0;
+    typedef int do_serialize;
+    template <class Archive> void serialize(Archive& ar, const unsigned int) { ar & data; }
+};
+// common part of every state: entry / exit logging.  SID = global state index (name table); data counts entries (C15/C16)
+template <int SID, bool SER = false> struct Beh : SerOpt<SER> {
+    template <class E, class F> void on_entry(E const& e, F& f) { this->data++; cb("en", SNAME[SID], e, f, -1, true, true, -1); }
     template <class E, class F> void on_exit(E const& e, F& f) { cb("ex", SNAME[SID], e, f, -2, true, true, -1); }
-    int data = 0;     // C15/C16: per-state datum
 };
 
 typedef mpl::vector<> NoList;
 template <int K> struct Fl {};   // user flags
 
-template <int SID, class Defers = NoList, class Flags = NoList, class ITab = NoList>
-struct St : msm::front::state<>, Beh<SID> {
+template <int SID, class Defers = NoList, class Flags = NoList, class ITab = NoList, bool SER = false>
+struct St : msm::front::state<>, Beh<SID, SER> {
     typedef Defers deferred_events; typedef Flags flag_list;
     typedef ITab internal_transition_table;
-    using Beh<SID>::on_entry; using Beh<SID>::on_exit;
+    using Beh<SID, SER>::on_entry; using Beh<SID, SER>::on_exit;
 };
 template <int SID, int ZONE, class Defers = NoList, class Flags = NoList, class ITab = NoList>
 struct StX : msm::front::state<>, msm::front::explicit_entry<ZONE>, Beh<SID> {
@@ -230,11 +243,10 @@ template <int SID, class Ends, class Flags = NoList>
 struct StI : msm::front::interrupt_state<Ends>, Beh<SID> { typedef Flags flag_list; using Beh<SID>::on_entry; using Beh<SID>::on_exit; };
 
 // front-end base of every machine.  SID = global state index of the machine's own name.
-template <class Derived, int SID>
-struct MDef : msm::front::state_machine_def<Derived> {
+template <class Derived, int SID, bool SER = false>
+struct MDef : msm::front::state_machine_def<Derived>, SerOpt<SER> {
     int vinst = -1;
-    int data = 0;
-    template <class E, class F> void on_entry(E const& e, F& f) { cb("en", SNAME[SID], e, f, -1, true, true, -1); }
+    template <class E, class F> void on_entry(E const& e, F& f) { this->data++; cb("en", SNAME[SID], e, f, -1, true, true, -1); }
     template <class E, class F> void on_exit(E const& e, F& f) { cb("ex", SNAME[SID], e, f, -2, true, true, -1); }
     template <class F, class E> void no_transition(E const& e, F& f, int state) { cb("nt", "", e, f, -4, false, true, state); }
     template <class F, class E> void exception_caught(E const& e, F& f, std::exception&) { cb("xc", "", e, f, -4, false, true, -1); }
